@@ -191,7 +191,7 @@ BRIDGES = {
     "C02": SOCK_ALL + PARSER_ALL,
     "C03": ["QhttpBridge.Tables"] + SOCK_ALL,
     "C04": SOCK_ALL + PARSER_ALL,
-    "C11": SOCK_ALL,
+    "C11": SOCK_ALL + ["QhttpBridge.Parser"],
     "C19": SOCK_ALL,
     "C12": PROXY_ALL + PARSER_ALL,
     "C13": PROXY_ALL + PARSER_ALL,
